@@ -173,6 +173,22 @@ CLAIMED = {
         note="The metaschemas are regenerated from /repo/jsonschema/schemas on every run, so a change to a bundled metaschema "
              "changes both sides consistently; the calibration against the official suite in setup guards the semantics.",
         design="5 C11"),
+    "C13": dict(
+        technique="TLA+ FormatGrammar recognisers (ipv4, ipv6 per RFC 4291, RFC 3339 full-date, email); TLC mutation machine MC_C13 "
+                  "(insert / delete / substitute from seeds) exporting verdicts replayed on conforms() / check(); "
+                  "never-raises records for every registered name trace-validated (Trace_C13)",
+        text="The grammars are recognisers over code points in the specification, independent of ipaddress / datetime / re. TLC "
+             "explores every single (thorough: double) edit of valid and invalid seeds over the grammar's characters and "
+             "intruders, and the recogniser's verdict for each string is replayed on FormatChecker() and on every draft "
+             "checker object registering the name. For the never-raises half, near-miss, random-Unicode and pathological "
+             "strings (absurd repetition counts, deep nesting, lone surrogates, thousands of digits) are run through every "
+             "name registered in this installation and TLC requires a boolean from conforms(), nothing but FormatError "
+             "from check(), agreement of the two, and the recogniser's verdict where a grammar exists; regex is compared "
+             "with the engine itself.",
+        note="idn-hostname, Draft 3 time and regex have no independent grammar here (never-raises half only). Year 0000 is left "
+             "unclaimed. Two defects were repaired (fix: commits): ISO 8601 alternatives accepted as date; OverflowError and "
+             "RecursionError escaping from regex.",
+        design="5 C13"),
     "C14": dict(
         technique="TLA+ Pointer module (RFC 6901 + RFC 3986 fragment encoding); TLC pointer-walk machine MC_C14 over hostile "
                   "documents (round-trip and clean-failure invariants), exports replayed into resolve_fragment and $ref "
